@@ -755,12 +755,12 @@ def scenario(sid, rec, tags):
 def model(ctx):
     thorough = ctx.tier == 'thorough'
     env = {'MC_TIER': ctx.tier, 'MC_MUT': 'none'}
-    ctx.model_must_hold('MC_C01', 'MC_C01.cfg', env=env, timeout=3000 if thorough else 600,
+    ctx.model_must_hold('MC_C01', 'MC_C01.cfg', env=env, timeout=3600 if thorough else 1500,
                         workers=12 if thorough else 8, xmx='6g')
     # the clauses must reject seeded deviations of the transcription (evidence about the specification, not a verdict)
     rejected = {}
     for mut in ('swap', 'stride', 'flatF'):
-        r = ctx.tlc_model('MC_C01', 'MC_C01.cfg', env={'MC_TIER': 'quick', 'MC_MUT': mut}, timeout=600, workers=4, xmx='6g',
+        r = ctx.tlc_model('MC_C01', 'MC_C01.cfg', env={'MC_TIER': 'quick', 'MC_MUT': mut}, timeout=1200, workers=4, xmx='6g',
                           label=f'seeded model deviation {mut} (violation expected)')
         rejected[mut] = bool(r['violated'])
     ctx.notes['model_deviations_rejected'] = rejected
